@@ -8,7 +8,7 @@ from .. import core, lib, exact as X, alphabet as A
 from ..core import Viol, Family
 from .C01 import mk_linelike, plane_set, KINDS
 from .C02 import base_features, plane_normals
-from ..icheck import faces_hash_ok
+from ..icheck import faces_hash_ok, safe_pose
 
 LEVEL = 'exploration'
 TECHNIQUE = 'bounded-exhaustive enumeration of container x candidate pairs x poses on the real code vs exact containment'
@@ -69,9 +69,10 @@ class BodyCands(Family):
     """candidates generated from a body's own features."""
 
     def __init__(self, bname, pose, tier):
+        K = A.body(bname)
+        pose = safe_pose(pose, K)
         self.name = 'body/%s/%s' % (bname, pose.name)
         self.pose = pose
-        K = A.body(bname)
         fps = A.feature_points(K)
         cands = [X.Pt(p) for lab, p in fps]
         base = base_features(K)
